@@ -358,6 +358,7 @@ func VerifStub_json_Marshal(v any) ([]byte, error) {
 }
 
 type c10Opt struct {
+	min   *decimal.Decimal
 	fee   *bellatrix.ExecutionAddress
 	gas   *uint64
 	grace *time.Duration
@@ -398,6 +399,9 @@ func sameAddr(a, b *bellatrix.ExecutionAddress) bool {
 	return (a == nil) == (b == nil) && (a == nil || *a == *b)
 }
 func sameKey(a, b *phase0.BLSPubKey) bool { return (a == nil) == (b == nil) && (a == nil || *a == *b) }
+func sameMin(a, b *decimal.Decimal) bool {
+	return (a == nil) == (b == nil) && (a == nil || a.BigInt().Cmp(b.BigInt()) == 0)
+}
 
 // VerifC10_V2RoundTrip: each of the four version 2 configuration objects
 // survives MarshalJSON followed by UnmarshalJSON with every setting as it was:
@@ -406,7 +410,7 @@ func VerifC10_V2RoundTrip() {
 	o := ndOpt("o")
 	switch vnd.Choose("object", 4) {
 	case 0:
-		in := &ProposerRelayConfig{Disabled: vnd.Bool("disabled"), PublicKey: o.key, FeeRecipient: o.fee, GasLimit: o.gas, Grace: o.grace}
+		in := &ProposerRelayConfig{Disabled: vnd.Bool("disabled"), PublicKey: o.key, FeeRecipient: o.fee, GasLimit: o.gas, Grace: o.grace, MinValue: o.min}
 		doc, err := in.MarshalJSON()
 		vnd.Assert(err == nil, "C10.roundtrip.marshal")
 		out := &ProposerRelayConfig{}
@@ -414,9 +418,9 @@ func VerifC10_V2RoundTrip() {
 		vnd.Assert(out.Disabled == in.Disabled && sameKey(out.PublicKey, in.PublicKey) && sameAddr(out.FeeRecipient, in.FeeRecipient), "C10.roundtrip.proposer-relay-entry-same-meaning")
 		vnd.Assert(sameU64(out.GasLimit, in.GasLimit), "C10.roundtrip.gas-limit-kept")
 		vnd.Assert(sameDur(out.Grace, in.Grace), "C10.roundtrip.grace-kept-zero-included")
-		vnd.Assert(out.MinValue == nil, "C10.roundtrip.absent-min-value-stays-absent")
+		vnd.Assert(sameMin(out.MinValue, in.MinValue), "C10.roundtrip.min-value-kept")
 	case 1:
-		in := &BaseRelayConfig{PublicKey: o.key, FeeRecipient: o.fee, GasLimit: o.gas, Grace: o.grace}
+		in := &BaseRelayConfig{PublicKey: o.key, FeeRecipient: o.fee, GasLimit: o.gas, Grace: o.grace, MinValue: o.min}
 		doc, err := in.MarshalJSON()
 		vnd.Assert(err == nil, "C10.roundtrip.marshal")
 		out := &BaseRelayConfig{}
@@ -424,10 +428,10 @@ func VerifC10_V2RoundTrip() {
 		vnd.Assert(sameKey(out.PublicKey, in.PublicKey) && sameAddr(out.FeeRecipient, in.FeeRecipient), "C10.roundtrip.base-relay-entry-same-meaning")
 		vnd.Assert(sameU64(out.GasLimit, in.GasLimit), "C10.roundtrip.gas-limit-kept")
 		vnd.Assert(sameDur(out.Grace, in.Grace), "C10.roundtrip.grace-kept-zero-included")
-		vnd.Assert(out.MinValue == nil, "C10.roundtrip.absent-min-value-stays-absent")
+		vnd.Assert(sameMin(out.MinValue, in.MinValue), "C10.roundtrip.min-value-kept")
 	case 2:
 		relays := map[string]*ProposerRelayConfig{"https://r.example": {}}
-		in := &ProposerConfig{Validator: phase0.BLSPubKey{7}, FeeRecipient: o.fee, GasLimit: o.gas, Grace: o.grace, ResetRelays: vnd.Bool("reset"), Relays: relays}
+		in := &ProposerConfig{Validator: phase0.BLSPubKey{7}, FeeRecipient: o.fee, GasLimit: o.gas, Grace: o.grace, MinValue: o.min, ResetRelays: vnd.Bool("reset"), Relays: relays}
 		if vnd.Bool("by-account") {
 			in.Validator = phase0.BLSPubKey{}
 			in.Account = regexp.MustCompile("^Wallet 1/.*$")
@@ -443,8 +447,9 @@ func VerifC10_V2RoundTrip() {
 		vnd.Assert(sameAddr(out.FeeRecipient, in.FeeRecipient) && out.ResetRelays == in.ResetRelays && len(out.Relays) == 1, "C10.roundtrip.proposer-entry-same-meaning")
 		vnd.Assert(sameU64(out.GasLimit, in.GasLimit), "C10.roundtrip.gas-limit-kept")
 		vnd.Assert(sameDur(out.Grace, in.Grace), "C10.roundtrip.grace-kept-zero-included")
+		vnd.Assert(sameMin(out.MinValue, in.MinValue), "C10.roundtrip.min-value-kept")
 	case 3:
-		in := &ExecutionConfig{Version: 2, FeeRecipient: o.fee, GasLimit: o.gas, Grace: o.grace,
+		in := &ExecutionConfig{Version: 2, FeeRecipient: o.fee, GasLimit: o.gas, Grace: o.grace, MinValue: o.min,
 			Relays: map[string]*BaseRelayConfig{"https://r.example": {}}, Proposers: []*ProposerConfig{{Validator: phase0.BLSPubKey{7}}}}
 		doc, err := in.MarshalJSON()
 		vnd.Assert(err == nil, "C10.roundtrip.marshal")
@@ -453,6 +458,52 @@ func VerifC10_V2RoundTrip() {
 		vnd.Assert(sameAddr(out.FeeRecipient, in.FeeRecipient) && len(out.Relays) == 1 && len(out.Proposers) == 1, "C10.roundtrip.configuration-same-meaning")
 		vnd.Assert(sameU64(out.GasLimit, in.GasLimit), "C10.roundtrip.gas-limit-kept")
 		vnd.Assert(sameDur(out.Grace, in.Grace), "C10.roundtrip.grace-kept-zero-included")
+		vnd.Assert(sameMin(out.MinValue, in.MinValue), "C10.roundtrip.min-value-kept")
 	}
 	vnd.Cover("C10.roundtrip.checked")
+}
+
+
+// VerifC10_V2MinValueRoundTrip: the minimum value (held in wei, written in
+// ETH) of each of the four objects survives the round trip: absent stays
+// absent; 0, 0.5, 10 and 100 ETH come back as the same number of wei.
+func VerifC10_V2MinValueRoundTrip() {
+	var min *decimal.Decimal
+	if m := vnd.Choose("min-value", 5); m > 0 {
+		d := decimal.New([]int64{0, 5, 100, 1000}[m-1], 17)
+		min = &d
+	}
+	var out *decimal.Decimal
+	switch vnd.Choose("object", 4) {
+	case 0:
+		in := &ProposerRelayConfig{MinValue: min}
+		doc, err := in.MarshalJSON()
+		vnd.Assert(err == nil, "C10.minvalue.marshal")
+		o := &ProposerRelayConfig{}
+		vnd.Assert(o.UnmarshalJSON(doc) == nil, "C10.minvalue.unmarshal")
+		out = o.MinValue
+	case 1:
+		in := &BaseRelayConfig{MinValue: min}
+		doc, err := in.MarshalJSON()
+		vnd.Assert(err == nil, "C10.minvalue.marshal")
+		o := &BaseRelayConfig{}
+		vnd.Assert(o.UnmarshalJSON(doc) == nil, "C10.minvalue.unmarshal")
+		out = o.MinValue
+	case 2:
+		in := &ProposerConfig{Validator: phase0.BLSPubKey{7}, MinValue: min}
+		doc, err := in.MarshalJSON()
+		vnd.Assert(err == nil, "C10.minvalue.marshal")
+		o := &ProposerConfig{}
+		vnd.Assert(o.UnmarshalJSON(doc) == nil, "C10.minvalue.unmarshal")
+		out = o.MinValue
+	case 3:
+		in := &ExecutionConfig{Version: 2, MinValue: min}
+		doc, err := in.MarshalJSON()
+		vnd.Assert(err == nil, "C10.minvalue.marshal")
+		o := &ExecutionConfig{}
+		vnd.Assert(o.UnmarshalJSON(doc) == nil, "C10.minvalue.unmarshal")
+		out = o.MinValue
+	}
+	vnd.Assert(sameMin(out, min), "C10.minvalue.kept-through-the-round-trip")
+	vnd.Cover("C10.minvalue.checked")
 }
